@@ -41,7 +41,7 @@ func (w *World) conserve(name string, sl *sendLog, busy bool) {
 	if f, ok := w.recs["F"]; ok {
 		fb = f
 	}
-	all := append(handled(r, "M:"), handled(r, "C:")...)
+	all := append(append(handled(r, "M:"), handled(r, "C:")...), handled(r, "E:")...)
 	for _, s := range sl.items {
 		c := count(all, s.payload)
 		fc := 0
@@ -404,6 +404,40 @@ func init() {
 			}
 			w.Out("cancelled=%d", cancelled)
 		}
+		return false
+	})
+	// the receiver has answered a request asynchronously (HandleCall returned nothing, the reply was sent by hand)
+	// before the sends arrive: every accepted message is still handled once, as what was sent
+	c02Scenario("after-async-reply-send-send", pl, func(w *World, sl *sendLog) bool {
+		pid := w.spawnProbe("R", probeCfg{onCall: func(p *probe, from gen.PID, ref gen.Ref, m any) (any, error) {
+			p.SendResponse(from, ref, "async")
+			return nil, nil
+		}}, gen.ProcessOptions{})
+		w.spawnProbe("C", probeCfg{}, gen.ProcessOptions{})
+		w.Do("C", func(p *probe) error { p.CallWithTimeout(pid, "q", 1); return nil })
+		w.ex.Thread("S1", func() { sl.add("a", w.n.Send(pid, "a")); sl.add("c", w.n.Send(pid, "c")) })
+		w.ex.Thread("S2", func() { sl.add("b", w.n.Send(pid, "b")) })
+		return false
+	})
+	// publications to a subscriber that is just going to sleep: an accepted publication is handled
+	c02Scenario("event-publication-vs-sleep", pl, func(w *World, sl *sendLog) bool {
+		pid := w.spawnProbe("R", probeCfg{}, gen.ProcessOptions{})
+		w.spawnProbe("P", probeCfg{}, gen.ProcessOptions{})
+		var token gen.Ref
+		w.Do("P", func(p *probe) error {
+			var err error
+			token, err = p.RegisterEvent("ev", gen.EventOptions{})
+			return err
+		})
+		w.Do("R", func(p *probe) error { _, err := p.LinkEvent(gen.Event{Name: "ev", Node: w.n.Name()}); return err })
+		w.ex.Thread("S1", func() { sl.add("a", w.n.Send(pid, "a")) })
+		w.ex.Thread("PUB", func() {
+			w.n.Send(w.pids["P"], doMsg{func(p *probe) error {
+				sl.add("e1", p.SendEvent("ev", token, "e1"))
+				sl.add("e2", p.SendEvent("ev", token, "e2"))
+				return nil
+			}})
+		})
 		return false
 	})
 	// meta process mailbox: two senders, conservation
